@@ -725,9 +725,21 @@ def refused_case(ctx, case):
                 if main.play_started and main.link is not None and \
                         main.reply_frames >= main.expected_replies > 0:
                     break
+                if o.exceptions:
+                    break
                 time.sleep(0.001)
             link = main.link
-            if link is None or not world.wait_idle(link, conn):
+            if o.exceptions or link is None or \
+                    not world.wait_idle(link, conn):
+                if o.exceptions:
+                    # not a matter of timing: the client reported an error
+                    # in a session with a well-behaved server, so there is
+                    # no active session to refuse anything on
+                    ctx.fail('refused', 'S2-session-to-refuse-on-failed',
+                             case, [repr(e[0]) for e in o.exceptions][:2],
+                             'the session before the refused call is up')
+                    world.kill_all()
+                    return
                 from vlib.core import HarnessError
                 raise HarnessError('C16 refused: session did not settle')
             if case.get('pos') and not conn.spawned:
@@ -1256,9 +1268,11 @@ def t_stalled(ctx):
                         '3 positions x 2 disconnect modes')
 
 
-def t_refused(ctx):
-    k = 0
-    for v in (757, 578, 340, 107, 47):
+def t_refused(ctx, versions=(757, 578, 340, 107, 47)):
+    # one shard per protocol: on a tree that breaks the refusal every case
+    # runs into its waits, and the check has to finish inside the wall guard
+    k = 20 * (757, 578, 340, 107, 47).index(versions[0])
+    for v in versions:
         for neg in (False, True):
             for pos in (True, False):
                 for ops in (['connect'], ['status'], ['status', 'connect'],
@@ -1270,8 +1284,9 @@ def t_refused(ctx):
     ctx.sample({'version': 340, 'negotiate': True, 'pos': True,
                 'ops': ['status', 'connect'], 'compress': None}, 'refused')
     ctx.exhaustive_done('refused connect()/status() on a quiescent active '
-                        'session: 5 protocols x negotiated or not x spawned '
-                        'or not x 4 call sequences')
+                        'session: protocol %s x negotiated or not x spawned '
+                        'or not x 4 call sequences'
+                        % '/'.join(map(str, versions)))
 
 
 def t_dead_peer(ctx):
@@ -1288,14 +1303,15 @@ def t_dead_peer(ctx):
                         'peer reset: 3 protocols x 3 disconnect forms')
 
 
-def t_exit_reconnect(ctx):
-    for v in (757, 340, 47):
+def t_exit_reconnect(ctx, versions=(757, 340, 47)):
+    for v in versions:
         for rounds in (1, 2, 4):
             for then in ('connect', 'status'):
                 exit_reconnect_case(ctx, {'version': v, 'rounds': rounds,
                                           'then': then})
-    ctx.exhaustive_done('reconnect from the exit callback: 3 protocols x '
-                        '1, 2, 4 kicked sessions x 2 refused calls')
+    ctx.exhaustive_done('reconnect from the exit callback: protocol %s x '
+                        '1, 2, 4 kicked sessions x 2 refused calls'
+                        % '/'.join(map(str, versions)))
 
 
 def t_thread_start(ctx):
@@ -1326,10 +1342,14 @@ def t_status_poller(ctx):
 
 def tasks(tier):
     q = tier == 'quick'
-    tl = [('stalled', t_stalled, {}), ('refused', t_refused, {}),
+    tl = [('stalled', t_stalled, {})] + \
+        [('refused_%d' % v, t_refused, {'versions': (v,)})
+         for v in (757, 578, 340, 107, 47)] + \
+        [('exit_reconnect_%d' % v, t_exit_reconnect, {'versions': (v,)})
+         for v in (757, 340, 47)]
+    tl += [
           ('status_poller', t_status_poller, {}),
           ('dead_peer', t_dead_peer, {}),
-          ('exit_reconnect', t_exit_reconnect, {}),
           ('thread_start', t_thread_start, {}),
           ('many_reconnects', t_many_reconnects,
            dict(n=1100 if q else 3000))]
